@@ -10,6 +10,8 @@ Tie, on every run:
   join Lean model of the branch-join rule (ifChainOk / matchArmsOk) vs the real checker on programs
        with a wrongly typed branch at every position of if / else-if / if-let chains (2..5) and
        match arms (2, 3, 5), in constrained and unconstrained contexts
+  vis/imp/tya/conf/bnd  Lean kernels of Model/Gates.lean (visibility, imports, type-argument arity,
+       interface conformance, bound validation) vs the real checker on generated declarations
 Direct implementation-side oracles (no model): literal range spec on token streams and parsed
 expressions; "assignable iff equal up to any-holes" on type pairs; instance-of on solved
 constraints; and the property itself on whole programs: every guaranteed-ill-typed single-edit
@@ -1435,15 +1437,19 @@ def run(ctx):
         "partial_theorems": {},
         "counterexample_theorems": [],
         "fixed_findings": ["C06-F1 (d5c9a21): int_range_exact / accepted_literals_faithful now full strength",
-                           "C06-F2 (db690ec): if condition checked against bool"],
-        "pending": ["visibility / name-resolution / interface-conformance / exhaustiveness models: mutant oracle only",
+                           "C06-F2 (db690ec): if condition checked against bool",
+                           "C06-F3 (d05f979): private fields no longer visible in a same-named class of another module"],
+        "pending": ["name resolution (ssa_analysis) and exhaustiveness (C07's model) are reached by the mutant oracle only",
                     "the inference engine that decides where `any` placeholders arise (hints, lambdas) is not modelled",
-                    "solve_sound is proved for any-free concrete types; with placeholders inside the concrete type only the slv oracle applies"]})
+                    "resolve_all_transitive_super_types and the substitution of interface type arguments into inherited signatures are inputs of the bound / conformance kernels (computed by the generator), not modelled",
+                    "solve_sound is proved for any-free concrete types; with placeholders inside the concrete type only the slv oracle applies",
+                    "abstract-type-as-type-argument gate (enforce_concrete_types) not modelled"]})
     ctx.assumptions += ["valid UTF-8 sources", "integer literal text matches the lexer regex 0|[1-9][0-9]* (checked by the tok correspondence)",
                         "reasons/locations are not part of a type's identity (dropped in Model/Assign.lean)"]
     return ctx.finish(res, trusted=common.TRUSTED_COMMON + [
         "hand-written models Model/IntRange.lean, Model/Assign.lean (HashMap substitution as association list)",
         "hooks: samlang_parser::verif_hooks (token dump), samlang_checker::verif_hooks_c06 (re-exports of type_system kernels)",
+        "gate kernels (Model/Gates.lean) are tied through whole programs (verdict accept/reject), not function by function",
         "the mutant generator's claim that each edit is ill-typed by the language rules (vlib/c06.py ProgGen / sample_sites)",
         "not modelled: inference engine deciding where `any` placeholders arise, SSA/name resolution, visibility, interface "
         "conformance walk, pattern exhaustiveness (C07), compile_sources' error gate — reached by the mutant oracle only"])
